@@ -424,6 +424,15 @@ class Recorder:
                 self.ev('expect_added', name=self.it.nb(st['name']))
             elif op == 'ladd':
                 self.add_listener()
+            elif op == 'busy_at':
+                # loop latency: a callback that runs at instant st['when'] keeps the loop busy for st['ms'] milliseconds (the
+                # clock moves while the callbacks queued behind it are still waiting; timers that fall due meanwhile are
+                # picked up together with them in the next iteration of the loop)
+                lp = self.net.loop
+
+                def block(ms: int = st['ms']) -> None:
+                    lp.vtime_us += ms * 1000
+                lp.call_at(st['when'] / 1000.0, block)
             elif op == 'conflict':
                 if not self.closed:
                     sp = st['svc']
@@ -454,9 +463,9 @@ class Recorder:
         self.ev('end')
         self.stopped = True
         for b in self.browsers:
-            await b.async_cancel()
+            await simnet.quiet(b.async_cancel())
         if not self.closed:
-            await self.host.aiozc.async_close()
+            await simnet.quiet(self.host.aiozc.async_close())
 
     def run(self) -> dict:
         self.net.run(self.main(), limit_ms=self.sc.get('limit_ms', 24 * 3600 * 1000))
@@ -582,7 +591,8 @@ def gen_known(rng: random.Random, svcs: List[dict]) -> List[dict]:
 
 def gen_query(rng: random.Random, svcs: List[dict], focus: str) -> dict:
     nq = rng.choice([1, 1, 1, 2, 3])
-    st: Dict[str, Any] = {'op': 'query', 'qs': [gen_question(rng, svcs) for _ in range(nq)], 'qid': rng.randint(0, 65535),
+    st: Dict[str, Any] = {'op': 'query', 'qs': [gen_question(rng, svcs) for _ in range(nq)],
+                          'qid': rng.choice([0, 1, 127, 128, 129, 255, 256, 32768, 65535]) if rng.random() < 0.25 else rng.randint(0, 65535),
                           'src': rng.choice(['10.0.0.9', '10.0.0.9', '10.0.0.23', '192.168.1.77'])}
     legacy_p = {'c03': 0.7, 'c11': 0.35, 'c12': 0.1, 'c08': 0.15}.get(focus, 0.2)
     if rng.random() < legacy_p:
@@ -870,8 +880,19 @@ def gen_c17(rng: random.Random, sid: str, thorough: bool = False) -> dict:
     t_end = times[-1]
     t_lo = min(t for t in times if t >= 600) if any(t >= 600 for t in times) else 600
     t_close = rng.choice([rng.randint(t_lo, max(t_lo + 1, t_end - 3500)),
-                          rng.choice([t for t in times if t >= t_lo] or [t_lo]) + rng.choice([0, 1, 10, 60, 130, 300, 600, 1100])])
+                          rng.choice([t for t in times if t >= t_lo] or [t_lo]) + rng.choice([0, 1, 10, 60, 130, 300, 600, 1100]),
+                          # exactly when the periodic cache purge is due (every 10 s from the start of the instance)
+                          10000 * rng.randint(max(1, (t_lo + 9999) // 10000), max(1, (t_lo + 9999) // 10000, t_end // 10000))])
+    busy = None
+    if t_close % 10000 == 0 and rng.random() < 0.7:
+        # the periodic purge falls due while the loop is busy in the very iteration that wakes the close sequence after its
+        # last goodbye (250 ms after the request): the step into the engine's close and the purge run in one iteration
+        delta = rng.choice([1, 2, 3])
+        t_close = t_close - 250 - delta
+        busy = (max(0, t_close - 1), {'op': 'busy_at', 'when': t_close + 250, 'ms': rng.choice([delta, 3, 5])})
     extra: List[Tuple[int, dict]] = []
+    if busy:
+        extra.append(busy)
     tb = rng.randint(500, max(501, t_close))
     extra.append((tb, {'op': 'bstart', 'types': [svc0['type'], '_other._tcp.local.'], 'delay': rng.choice([1000, 10000])}))
     extra.append((tb, {'op': 'ladd'}))
